@@ -24,6 +24,7 @@ mod rawcmds;
 mod tetris;
 mod tetris2;
 mod misc;
+mod serde18;
 
 use serde_json::Value;
 
